@@ -383,6 +383,10 @@ def run(ctx):
     ck.expect(any(isinstance(a, ast.Assert) and norm_text(a.test) == 'session.is_processed' for a in walk_no_nested(pt.node)), 'C01-D5', pt.qual,
               'assert session.is_processed after the processor', 'ProcessTask no longer asserts that the item was finalised', pt.loc())
 
+    # the start hosts the scope is measured against are stored as the attribute the filter looks up
+    from .common import hostnames_agreement_rule
+    hostnames_agreement_rule(ctx, 'C01-D2')
+
     # ------------------------------------------------------------------ D6
     _d6_redirect_hops(ctx)
 
